@@ -4,7 +4,7 @@ from props.C06 import PROP as P6
 
 PROP = dict(
     level="proof",
-    lean=["Tcell.Props.C05"], namespaces=["Tcell.Props.C05"], engines=["pipe"],
+    lean=["Tcell.Props.C05", "Tcell.Props.C05Real"], namespaces=["Tcell.Props.C05", "Tcell.Props.C05Real"], engines=["pipe"],
     classes=["input-event", "post-", "pending-", "when-", "error-event", "channel-not-closed", "ref:", "crash", "fatal"],
     trusted_base=P6["trusted_base"] + ["the parser enters the theorems only through the chunk law (hypothesis ChunkLaw; property C02 proves it for the real parser model); the replay uses the real parser model Tcell.Model.collect"],
     assumptions=["a single consumer drains the queue (PollEvent loop or one ChannelEvents reader)",
